@@ -8,7 +8,7 @@ from typing import Dict, List, Optional, Set, Tuple
 from ..core import AnalysisError, Ctx, assigned_names, dotted, names_in, norm, stmts_local, walk_local
 from ..fold import LAST, NONE, PAIRS, RESV, CITV, Prov, resolver_call_roles
 from ..foldrules import FoldRules, isinstance_test
-from ..paths import enumerate_paths, guards_of, stmt_of
+from ..paths import cond_paths, enumerate_paths, guards_of, stmt_of
 
 
 def leaves(e: Optional[ast.AST]) -> List[Optional[ast.AST]]:
@@ -212,6 +212,33 @@ class C07Rules(FoldRules):
                         return a.args[0]
         return None
 
+    def _check_addition(self, name, fn, pv, thecit, app, arg, F, R, guards):
+        ctx = self.ctx
+        same_tuple = norm(arg) in (R, f"({F}, {R})")
+        kinds = []
+        unknown = []
+        for (c, o) in guards:
+            k = self._classify_guard(c, o, F, thecit, fn, pv)
+            if k is None:
+                unknown.append(f"{norm(c)[:50]}={o}")
+            else:
+                kinds.append(k)
+        ctx.ob("R-C07-2", f"resolve.{name}/candidate:same-tuple", same_tuple,
+               f"the resource added must come from the same pair as the citation tested (adds {norm(arg)[:40]})", node=app, mod=self.m)
+        ctx.ob("R-C07-2", f"resolve.{name}/candidate:no-extra-filter", not unknown,
+               f"every condition guarding the addition of a candidate must be a matching predicate between the "
+               f"citation being resolved and the same pair; unrecognised: {unknown}", node=app, mod=self.m)
+        if name == self.r.resolvers.get(self._param_for("ShortCaseCitation"), ""):
+            need = {"isinstance:FullCaseCitation", "eq:corrected_reporter", "eq:volume"}
+            ctx.ob("R-C07-2", f"resolve.{name}/candidate:reporter+volume", need <= set(kinds),
+                   f"short-form candidates need isinstance(.., FullCaseCitation), equal corrected_reporter() and equal volume; found {sorted(kinds)}",
+                   node=app, mod=self.m)
+        else:
+            ok = any(k.startswith("contains:") or k == "intersects" for k in kinds)
+            ctx.ob("R-C07-2", f"resolve.{name}/candidate:name-match", ok,
+                   f"name-based candidates need a containment / intersection test against the same pair's party names; found {sorted(kinds)}",
+                   node=app, mod=self.m)
+
     # ---- R-C07-2 --------------------------------------------------------------
     def r2_candidate_predicates(self):
         ctx = self.ctx
@@ -236,34 +263,10 @@ class C07Rules(FoldRules):
                     and isinstance(n.func.value, ast.Name) and n.args
                 ]
                 for app in appends:
-                    arg = app.args[0]
-                    same_tuple = norm(arg) in (R, f"({F}, {R})")
-                    n_app += 1
                     st = stmt_of(app)
                     guards, npaths = guards_of(paths, st)
-                    kinds = []
-                    unknown = []
-                    for (c, o) in guards:
-                        k = self._classify_guard(c, o, F, thecit, fn, pv)
-                        if k is None:
-                            unknown.append(f"{norm(c)[:50]}={o}")
-                        else:
-                            kinds.append(k)
-                    ctx.ob("R-C07-2", f"resolve.{name}/candidate:same-tuple", same_tuple,
-                           f"the resource added must come from the same pair as the citation tested (adds {norm(arg)[:40]})", node=app, mod=self.m)
-                    ctx.ob("R-C07-2", f"resolve.{name}/candidate:no-extra-filter", not unknown,
-                           f"every condition guarding the addition of a candidate must be a matching predicate between the "
-                           f"citation being resolved and the same pair; unrecognised: {unknown}", node=app, mod=self.m)
-                    if name == self.r.resolvers.get(self._param_for("ShortCaseCitation"), ""):
-                        need = {"isinstance:FullCaseCitation", "eq:corrected_reporter", "eq:volume"}
-                        ctx.ob("R-C07-2", f"resolve.{name}/candidate:reporter+volume", need <= set(kinds),
-                               f"short-form candidates need isinstance(.., FullCaseCitation), equal corrected_reporter() and equal volume; found {sorted(kinds)}",
-                               node=app, mod=self.m)
-                    else:
-                        ok = any(k.startswith("contains:") or k == "intersects" for k in kinds)
-                        ctx.ob("R-C07-2", f"resolve.{name}/candidate:name-match", ok,
-                               f"name-based candidates need a containment / intersection test against the same pair's party names; found {sorted(kinds)}",
-                               node=app, mod=self.m)
+                    n_app += 1
+                    self._check_addition(name, fn, pv, thecit, app, app.args[0], F, R, guards)
                 # completeness: no `continue`/`break` other than on a failed isinstance
                 for p in paths:
                     if p.exit in ("continue", "break", "return"):
@@ -273,6 +276,31 @@ class C07Rules(FoldRules):
                         ctx.ob("R-C07-2", f"resolve.{name}/scan-exit", ok,
                                f"the candidate scan may skip a pair only because it is not a FullCaseCitation; path conditions {conds[:4]} -> {p.exit}",
                                node=p.exit_node, mod=self.m)
+            # comprehension form of the same scan: [(f, r) for f, r in pairs if <matching predicates>]
+            for comp in [n for n in walk_local(fn) if isinstance(n, (ast.ListComp, ast.SetComp)) and len(n.generators) == 1 and n.generators[0].ifs]:
+                g = comp.generators[0]
+                it = pv.of(g.iter)
+                it.discard("EMPTY")
+                if it != {PAIRS}:
+                    continue
+                if not (isinstance(g.target, ast.Tuple) and len(g.target.elts) == 2 and all(isinstance(t, ast.Name) for t in g.target.elts)):
+                    ctx.ob("R-C07-2", f"resolve.{name}/scan-target", False, "scan over (citation, resource) pairs must unpack both", node=comp, mod=self.m)
+                    continue
+                F, R = g.target.elts[0].id, g.target.elts[1].id
+                guards = []
+                for c in g.ifs:
+                    for ev, res in cond_paths(c):
+                        if res:
+                            guards_c = [(e[1], e[2]) for e in ev]
+                            break
+                    else:
+                        guards_c = []
+                    # a conjunction is true on exactly one evaluation path: all atoms as taken there
+                    if isinstance(c, ast.BoolOp) and isinstance(c.op, ast.Or):
+                        guards_c = [(c, True)]
+                    guards.extend(guards_c)
+                n_app += 1
+                self._check_addition(name, fn, pv, thecit, comp, comp.elt, F, R, guards)
         ctx.extra["candidate_additions"] = n_app
         ctx.need(n_app >= 4, f"expected >=4 candidate additions, found {n_app}")
 
